@@ -332,8 +332,8 @@ decreasing_by
     have h3 := strchrSlash_at hc
     have : si < sj := by
       by_cases hd : d = C_SLASH
-      · simp only [hd, if_true, dite_true] at h2; omega
-      · simp only [hd, if_false, dite_false] at h2
+      · simp only [hd, dite_true] at h2; omega
+      · simp only [hd, dite_false] at h2
         rcases Nat.lt_or_eq_of_le h2 with h | h
         · omega
         · subst h; rw [hs] at h3; cases h3; exact absurd rfl hd
